@@ -10,7 +10,7 @@ from fractions import Fraction as F
 import agglib as A
 import aggrun as R
 from props.c08 import stable
-from props.c16 import krum_gap_ok
+from props.c16 import fine_f64_matrix, krum_gap_ok
 
 NAMES = ["UPGrad", "DualProj", "MGDA", "Mean", "Sum", "AlignedMTL", "IMTLG", "ConFIG", "CAGrad",
          "TrimmedMean", "Krum", "Constant", "GradDrop"]
@@ -44,7 +44,7 @@ def check_case(chk, c, found, maxperms):
     if len(perms) > maxperms:
         rng = pyrandom.Random(len(perms))
         perms = [perms[0]] + rng.sample(perms[1:], maxperms - 1)
-    for dt in R.dtypes_for(c):
+    for dt in (("f64",) if "f64_below_f32_resolution" in c["cat"] else R.dtypes_for(c)):
         base = A.impl_call(name, p, J, dt, seed=5)
         if base[0] != "ok":
             rep = R.case_json(c, dt)
@@ -89,6 +89,13 @@ def forced_cases(rng):
             for i in range(1, m - 1):
                 J[i][0] = F(sorted(alpha)[1])          # column 0: min, (m-2) x the middle letter, max
             out.append({"name": "TrimmedMean", "params": {"b": b}, "J": J, "cat": "forced_few_values_tall"})
+    # float64 rows that differ by less than float32 resolution (common component 2^30): Krum, float64 only
+    n_fine = 0
+    for _ in range(100):
+        J, f, k = fine_f64_matrix(rng)
+        if J is not None and len(J) <= 6 and n_fine < 3:
+            n_fine += 1
+            out.append({"name": "Krum", "params": {"f": f, "k": k}, "J": J, "cat": "f64_below_f32_resolution"})
     return out
 
 
